@@ -116,6 +116,17 @@ func (e *Engine) rtCall(name string, args []Value, st *State, depth int, site ss
 		}
 		sel := NewVarRange(str(0), 8, 0, uint64(len(opts)-1))
 		return one(st, strChoice(sel, opts))
+	case "ChoiceAt":
+		sel := args[0].(*Term)
+		var opts []string
+		for _, v := range sliceVals(st, args[1].(SliceV)) {
+			s, ok := cstr(v)
+			if !ok {
+				e.unsupported("verifrt.ChoiceAt options must be constants")
+			}
+			opts = append(opts, s)
+		}
+		return one(st, strChoice(sel, opts))
 	case "Assume":
 		c := args[0].(*Term)
 		if c == FF {
@@ -162,6 +173,9 @@ func (e *Engine) rtCall(name string, args []Value, st *State, depth int, site ss
 		target := str(0)
 		iv := args[1].(IfaceV)
 		e.stubs[target] = iv.v.(*FuncV)
+		return one(st, nil)
+	case "LiftCall":
+		e.liftFns[str(0)] = true
 		return one(st, nil)
 	case "Unstub":
 		delete(e.stubs, str(0))
